@@ -25,6 +25,12 @@ CLAIMED = {
          "path-sensitive must-pass-through (SSA) + field coverage of View.Equals + operand provenance + writer/reader key agreement"),
  "C20": ("order-book escrow clause only: account leg and pool leg carry the same amount expression on every success path, the pool id is chainId + the kind's addend on both sides, the stored order carries that amount; payout is followed by deletion of the same order; locked orders cannot be edited or deleted",
          "path-sensitive ledger balancing by expression identity + provenance of pool ids + pairing"),
+ "C01": ("agreement itself is NOT decided; decided are the HotStuff safety disciplines: who may write the lock and under which established conditions, every vote/self-commit only after the phase's validation (SAFE-NODE unless unlocked, ValidateProposal, proposer/proposal check, lock before precommit vote), +2/3 comparisons and every read of the threshold, one vote per validator, locks kept across root-chain resets, attached HighQC never accepted unverified",
+         "who-may-write + path-sensitive must-pass-through (SSA) with guard refinement + enumeration of vote/threshold sites"),
+ "C11": ("shared-derivation structure: proposer and replica use the same two functions; every header field derives from state/results/previous block/preset inputs; replica acceptance is dominated by hash and result equality; Equals methods compare every field; archive re-marshalling is sound because only canonical encodings execute; oversize-probed transactions never become block content",
+         "who-may-call + provenance of header fields + path-sensitive must-pass-through + field coverage of Equals methods"),
+ "C13": ("three structural clauses: the validator list borrowed from the shared per-height cache is never mutated by a borrower; threshold/total power have a single writer; past committees are read through a read-only view at the asked height and FSM caches have a fixed writer set",
+         "alias/taint analysis of borrowed storage (SSA, closures followed) + who-may-write + provenance"),
 }
 
 NOT_APPLICABLE = {
